@@ -182,18 +182,19 @@ def run(prop, tier, replay):
 
 # ---------------------------------------------------------------------------- C20: self-managed provider
 
-def prov_cfg(peers, maxops, fix=True, addall=True, hs=None, ls=None, xs=None, hist=False):
+def prov_cfg(peers, maxops, fix=True, addall=True, hs=None, ls=None, xs=None, hist=False, alt="NoAlt"):
     b = lambda x: "TRUE" if x else "FALSE"
     full = {"P3": ("U3", "L3", "X3"), "P2": ("U2", "L2", "X2")}[peers]
-    return ("CONSTANTS Self = \"A\" Peers <- %s Unknown = \"X\" MaxOps = %d FixUnknown = %s AddAll = %s HandshakeSet <- %s MemberLists <- %s UnreachSet <- %s KeepHist = %s\n"
+    return ("CONSTANTS Self = \"A\" Peers <- %s Unknown = \"X\" MaxOps = %d FixUnknown = %s AddAll = %s HandshakeSet <- %s MemberLists <- %s UnreachSet <- %s KeepHist = %s AltHosts <- %s\n"
             "SPECIFICATION Spec\nINVARIANTS TypeOK C20_AgentTold C20_KeepsRunning C20_SelfStays\nPROPERTIES C20_Action\n" % (
-                peers, maxops, b(fix), b(addall), hs or full[0], ls or full[1], xs or full[2], b(hist)))
+                peers, maxops, b(fix), b(addall), hs or full[0], ls or full[1], xs or full[2], b(hist), alt))
 
 
 def prov_step(act, args, dst):
-    s = {"act": act, "members": setof(dst["members"]), "up": [], "state": {}, "events": []}
+    s = {"act": act, "members": setof(dst["members"]), "up": [], "state": {}, "events": [],
+         "hosts": {m: dst["host"][m] for m in setof(dst["members"])}}
     if act == "Handshake":
-        s.update(m=args[0], reply=setof(dst["reply"]))
+        s.update(m=args[0], alt=bool(args[1]), reply=setof(dst["reply"]))
     elif act == "MembersMsg":
         s.update(l=setof(args[0]))
     else:
@@ -229,7 +230,9 @@ def run20(prop, tier, replay):
         ncov = ntot = 0
         plans = [("prov_full_%d" % len(peers), prov_cfg("P3" if len(peers) == 3 else "P2", 4 if tier == "thorough" else 3)),
                  # every input sequence of length 4 (5) over a small alphabet: the code may remember more than the member list
-                 ("prov_seq", prov_cfg("P2", 5 if tier == "thorough" else 4, hs="Hs", ls="Ls", xs="Xs", hist=True))]
+                 ("prov_seq", prov_cfg("P2", 5 if tier == "thorough" else 4, hs="Hs", ls="Ls", xs="Xs", hist=True)),
+                 # a member that comes back under its id on a new address, late reports for the old one
+                 ("prov_alt", prov_cfg("P2", 5 if tier == "thorough" else 4, hs="Hs", ls="Ls", xs="Xs", hist=True, alt="AltG1"))]
         for tag, ctext in plans:
             r, gjson, nn, ne = graphs.dump_graph(sc, "MCProvider.tla", ctext, tag, workers=4)
             v.add_tlc(r, tag)
